@@ -1088,4 +1088,1089 @@ theorem wm_trace_ok (div : Int → Nat → Nat) {d : Nat} (hd : 1 ≤ d) (es : L
         rw [hc, hx] at this
         exact this
 
+/-! ### StreamAlphaNode, session window -/
+
+theorem ans_step_ok (a : AlphaS) (op : ANOp) :
+    ansStepOk a.timeout a.cap a.last a.events op
+        { ret := (a.process op.now op.pass op.e).2, events := (a.process op.now op.pass op.e).1.events } = true
+      ∧ (a.process op.now op.pass op.e).1.last = sessLast a.timeout a.last op
+      ∧ (a.process op.now op.pass op.e).1.timeout = a.timeout
+      ∧ (a.process op.now op.pass op.e).1.cap = a.cap := by
+  unfold AlphaS.process ansStepOk sessLast
+  cases hp : op.pass with
+  | false => simp
+  | true =>
+    simp only [if_true, beq_self_eq_true, Bool.true_and]
+    have hg : (a.gapReset op.e.ts).timeout = a.timeout ∧ (a.gapReset op.e.ts).cap = a.cap
+        ∧ (a.gapReset op.e.ts).events = (if continues a.timeout a.last op.e.ts then a.events else []) := by
+      unfold AlphaS.gapReset continues
+      cases a.last with
+      | none => simp
+      | some l =>
+        by_cases h : op.e.ts - l > a.timeout
+        · have : ¬ (op.e.ts - l ≤ a.timeout) := by omega
+          simp [h, this]
+        · have : op.e.ts - l ≤ a.timeout := by omega
+          simp [h, this]
+    obtain ⟨hg1, hg2, hg3⟩ := hg
+    unfold AlphaS.expire AlphaS.push
+    simp only [hg1, hg2, hg3]
+    by_cases hx : op.now - op.e.ts > a.timeout
+    · simp [hx]
+    · simp [hx, keptByCap_popOver]
+
+theorem ans_trace_ok (ops : List ANOp) (a : AlphaS) :
+    ansRunOk a.timeout a.cap a.last a.events ops (ansTrace a ops) = true := by
+  induction ops generalizing a with
+  | nil => simp [ansTrace, ansRunOk]
+  | cons op ops ih =>
+    obtain ⟨h1, h2, h3, h4⟩ := ans_step_ok a op
+    simp only [ansTrace, ansRunOk, Bool.and_eq_true]
+    refine ⟨h1, ?_⟩
+    have := ih (a.process op.now op.pass op.e).1
+    rw [h2, h3, h4] at this
+    exact this
+
+/-- consecutive events (arrival order) are at most `t` apart, `saturating_sub` as in the code -/
+def gapsOk (t : Nat) : List Ev → Bool
+  | [] => true
+  | [_] => true
+  | x :: y :: rest => decide (y.ts - x.ts ≤ t) && gapsOk t (y :: rest)
+
+theorem gapsOk_tail {t : Nat} {x : Ev} {l : List Ev} (h : gapsOk t (x :: l) = true) : gapsOk t l = true := by
+  cases l with
+  | nil => rfl
+  | cons y r => simp only [gapsOk, Bool.and_eq_true] at h; exact h.2
+
+theorem gapsOk_drop {t : Nat} (k : Nat) {l : List Ev} (h : gapsOk t l = true) : gapsOk t (l.drop k) = true := by
+  induction k generalizing l with
+  | zero => simpa using h
+  | succ k ih =>
+    cases l with
+    | nil => simp [gapsOk]
+    | cons x r => simpa using ih (gapsOk_tail h)
+
+theorem gapsOk_snoc {t : Nat} {l : List Ev} {e : Ev} (h : gapsOk t l = true)
+    (hl : ∀ x ∈ l.getLast?, e.ts - x.ts ≤ t) : gapsOk t (l ++ [e]) = true := by
+  induction l with
+  | nil => rfl
+  | cons x r ih =>
+    cases r with
+    | nil =>
+      simp only [List.cons_append, List.nil_append, gapsOk, Bool.and_true, decide_eq_true_eq]
+      exact hl x (by simp)
+    | cons y r' =>
+      simp only [List.cons_append, gapsOk, Bool.and_eq_true] at h ⊢
+      refine ⟨h.1, ?_⟩
+      apply ih h.2
+      intro z hz
+      apply hl z
+      simpa [List.getLast?_cons_cons] using hz
+
+/-- what a session node maintains -/
+structure SInv (a : AlphaS) : Prop where
+  closed : a.last = none → a.events = []
+  newest : ∀ l, a.last = some l → ∀ x ∈ a.events.getLast?, x.ts = l
+  chain : gapsOk a.timeout a.events = true
+  len : a.events.length ≤ a.cap
+
+theorem getLast?_popOver_snoc (cap : Nat) (l : List Ev) (e : Ev) :
+    ∀ x ∈ (popOver cap (l ++ [e])).getLast?, x = e := by
+  intro x hx
+  by_cases hc : 1 ≤ cap
+  · rw [popOver_append_last l e hc] at hx
+    simpa using hx.symm
+  · have : cap = 0 := by omega
+    subst this
+    rw [popOver_eq_drop] at hx
+    simp at hx
+
+theorem sinv_step {a : AlphaS} (h : SInv a) (now : Nat) (pass : Bool) (e : Ev) : SInv (a.process now pass e).1 := by
+  unfold AlphaS.process
+  cases pass with
+  | false => simpa using h
+  | true =>
+    simp only [if_true]
+    -- after the gap test
+    have hg : SInv (a.gapReset e.ts) ∧ (∀ x ∈ (a.gapReset e.ts).events.getLast?, e.ts - x.ts ≤ a.timeout)
+        ∧ (a.gapReset e.ts).timeout = a.timeout := by
+      unfold AlphaS.gapReset
+      cases hl : a.last with
+      | none =>
+        have := h.closed hl
+        simp only
+        exact ⟨h, by rw [this]; simp, trivial⟩
+      | some l =>
+        simp only
+        by_cases hgap : e.ts - l > a.timeout
+        · simp only [hgap, if_true]
+          exact ⟨⟨by simp, by simp, by simp [gapsOk], by simp⟩, by simp, trivial⟩
+        · simp only [hgap, if_false]
+          refine ⟨h, ?_, trivial⟩
+          intro x hx
+          rw [h.newest l hl x hx]; omega
+    obtain ⟨hg1, hg2, hg3⟩ := hg
+    generalize a.gapReset e.ts = b at hg1 hg2 hg3
+    -- after the push
+    have hp : SInv (b.push e) := by
+      unfold AlphaS.push
+      refine ⟨by simp, ?_, ?_, ?_⟩
+      · intro l hl x hx
+        simp only [Option.some.injEq] at hl
+        rw [getLast?_popOver_snoc _ _ _ x hx]; exact hl
+      · show gapsOk b.timeout (popOver b.cap (b.events ++ [e])) = true
+        rw [popOver_eq_drop]
+        apply gapsOk_drop
+        apply gapsOk_snoc hg1.chain
+        rw [hg3]; exact hg2
+      · show (popOver b.cap (b.events ++ [e])).length ≤ b.cap
+        rw [length_popOver]; omega
+    generalize b.push e = c at hp
+    unfold AlphaS.expire
+    cases hl : c.last with
+    | none => exact hp
+    | some l =>
+      simp only
+      by_cases hx : now - l > c.timeout
+      · simp only [hx, if_true]
+        exact ⟨by simp, by simp, by simp [gapsOk], by simp⟩
+      · simp only [hx, if_false]; exact hp
+
+/-- running the node over a history -/
+def ansRun : AlphaS → List ANOp → AlphaS
+  | a, [] => a
+  | a, op :: ops => ansRun (a.process op.now op.pass op.e).1 ops
+
+theorem sinv_run (ops : List ANOp) (a : AlphaS) (h : SInv a) : SInv (ansRun a ops) := by
+  induction ops generalizing a with
+  | nil => exact h
+  | cons op ops ih => exact ih _ (sinv_step h op.now op.pass op.e)
+
+/-! ### WindowedStream::new, sliding / session -/
+
+theorem mem_wsGrid (step : Nat) (hs : 0 < step) (cur mx s : Nat) :
+    s ∈ wsGrid step hs cur mx ↔ cur ≤ s ∧ s ≤ mx ∧ (s - cur) % step = 0 := by
+  fun_induction wsGrid step hs cur mx with
+  | case1 cur h ih =>
+    rw [List.mem_cons, ih]
+    constructor
+    · rintro (rfl | ⟨h1, h2, h3⟩)
+      · exact ⟨Nat.le_refl _, h, by simp⟩
+      · refine ⟨by omega, h2, ?_⟩
+        have : s - cur = (s - (cur + step)) + step := by omega
+        rw [this, Nat.add_mod_right]; exact h3
+    · rintro ⟨h1, h2, h3⟩
+      by_cases he : s = cur
+      · exact Or.inl he
+      · right
+        have hge : step ≤ s - cur := by
+          rcases Nat.lt_or_ge (s - cur) step with hlt | hge
+          · rw [Nat.mod_eq_of_lt hlt] at h3; omega
+          · exact hge
+        refine ⟨by omega, h2, ?_⟩
+        have : s - cur = (s - (cur + step)) + step := by omega
+        rw [this, Nat.add_mod_right] at h3; exact h3
+  | case2 cur h =>
+    simp only [List.not_mem_nil, false_iff]
+    omega
+
+theorem wsGrid_pairwise (step : Nat) (hs : 0 < step) (cur mx : Nat) :
+    (wsGrid step hs cur mx).Pairwise (· < ·) := by
+  fun_induction wsGrid step hs cur mx with
+  | case1 cur h ih =>
+    rw [List.pairwise_cons]
+    refine ⟨?_, ih⟩
+    intro s hs'
+    have := (mem_wsGrid step hs (cur + step) mx s).mp hs'
+    omega
+  | case2 cur h => exact List.Pairwise.nil
+
+theorem foldl_min_le (l : List Ev) (m : Nat) :
+    l.foldl (fun m x => min m x.ts) m ≤ m ∧ ∀ x ∈ l, l.foldl (fun m x => min m x.ts) m ≤ x.ts := by
+  induction l generalizing m with
+  | nil => simp
+  | cons y r ih =>
+    obtain ⟨h1, h2⟩ := ih (min m y.ts)
+    simp only [List.foldl_cons]
+    refine ⟨by omega, ?_⟩
+    intro x hx
+    rcases List.mem_cons.mp hx with rfl | hx
+    · omega
+    · exact h2 x hx
+
+theorem foldl_max_ge (l : List Ev) (m : Nat) :
+    m ≤ l.foldl (fun m x => max m x.ts) m ∧ ∀ x ∈ l, x.ts ≤ l.foldl (fun m x => max m x.ts) m := by
+  induction l generalizing m with
+  | nil => simp
+  | cons y r ih =>
+    obtain ⟨h1, h2⟩ := ih (max m y.ts)
+    simp only [List.foldl_cons]
+    refine ⟨by omega, ?_⟩
+    intro x hx
+    rcases List.mem_cons.mp hx with rfl | hx
+    · omega
+    · exact h2 x hx
+
+/-- `minTs` / `maxTs` bound every timestamp -/
+theorem minTs_le {es : List Ev} {x : Ev} (h : x ∈ es) : minTs es ≤ x.ts := by
+  cases es with
+  | nil => cases h
+  | cons e r =>
+    obtain ⟨h1, h2⟩ := foldl_min_le r e.ts
+    rcases List.mem_cons.mp h with rfl | h
+    · exact h1
+    · exact h2 x h
+
+theorem le_maxTs {es : List Ev} {x : Ev} (h : x ∈ es) : x.ts ≤ maxTs es := by
+  cases es with
+  | nil => cases h
+  | cons e r =>
+    obtain ⟨h1, h2⟩ := foldl_max_ge r e.ts
+    rcases List.mem_cons.mp h with rfl | h
+    · exact h1
+    · exact h2 x h
+
+theorem minTs_le_maxTs (es : List Ev) : minTs es ≤ maxTs es := by
+  cases es with
+  | nil => exact Nat.le_refl _
+  | cons e r =>
+    have h1 := (foldl_min_le r e.ts).1
+    have h2 := (foldl_max_ge r e.ts).1
+    exact Nat.le_trans h1 h2
+
+theorem wsWindowAt_eq (t : WType) (d cap : Nat) (es : List Ev) (s : Nat) :
+    wsWindowAt t d cap es s
+      = { wtype := t, dur := d, start := s, stop := s + d, cap := cap, events := popOver cap (es.filter (inSpan s d)) } := by
+  unfold wsWindowAt
+  have hc : ∀ e ∈ es.filter (inSpan s d), (TW.new t d s cap).contains e.ts = true := by
+    intro e he
+    have := (List.mem_filter.mp he).2
+    simp only [TW.contains, TW.new, inSpan] at this ⊢
+    exact this
+  rcases fillWindow_spec _ _ hc with h1 | ⟨h1, h2⟩
+  · rw [h1]; simp [TW.new]
+  · rw [h2, h1]; simp [TW.new, popOver]
+
+theorem wsStep_le (d : Nat) (hd : 1 ≤ d) : wsStep d ≤ d := by unfold wsStep; omega
+
+/-- the sliding / session branch of `WindowedStream::new`, window by window -/
+theorem ws_sliding_spec (t : WType) (d cap : Nat) (es : List Ev) :
+    ((wsSliding t d cap es).map (·.start)).Pairwise (· < ·)
+    ∧ (∀ w ∈ wsSliding t d cap es,
+        minTs es ≤ w.start ∧ (w.start - minTs es) % wsStep d = 0 ∧ w.start ≤ maxTs es
+        ∧ w.stop = w.start + d
+        ∧ w.events = popOver cap (es.filter (inSpan w.start d))
+        ∧ w.events ≠ [])
+    ∧ (∀ s, minTs es ≤ s → s ≤ maxTs es → (s - minTs es) % wsStep d = 0 → 1 ≤ cap →
+        (∃ x ∈ es, inSpan s d x = true) → ∃ w ∈ wsSliding t d cap es, w.start = s) := by
+  unfold wsSliding
+  by_cases he : es.isEmpty = true
+  · have : es = [] := by simpa using he
+    subst this
+    simp
+  · simp only [he, Bool.false_eq_true, if_false]
+    refine ⟨?_, ?_, ?_⟩
+    · have hg := wsGrid_pairwise (wsStep d) (wsStep_pos d) (minTs es) (maxTs es)
+      have hm : (((wsGrid (wsStep d) (wsStep_pos d) (minTs es) (maxTs es)).map (wsWindowAt t d cap es)).map (·.start))
+          = wsGrid (wsStep d) (wsStep_pos d) (minTs es) (maxTs es) := by
+        rw [List.map_map]
+        conv => rhs; rw [← List.map_id (wsGrid (wsStep d) (wsStep_pos d) (minTs es) (maxTs es))]
+        apply List.map_congr_left
+        intro s _
+        simp [wsWindowAt_eq]
+      have hsub : ((((wsGrid (wsStep d) (wsStep_pos d) (minTs es) (maxTs es)).map (wsWindowAt t d cap es)).filter
+          fun w => decide (0 < w.events.length)).map (·.start)).Sublist
+          (((wsGrid (wsStep d) (wsStep_pos d) (minTs es) (maxTs es)).map (wsWindowAt t d cap es)).map (·.start)) :=
+        List.filter_sublist.map _
+      rw [hm] at hsub
+      exact hg.sublist hsub
+    · intro w hw
+      rw [List.mem_filter, List.mem_map] at hw
+      obtain ⟨⟨s, hs, rfl⟩, hne⟩ := hw
+      obtain ⟨h1, h2, h3⟩ := (mem_wsGrid _ _ _ _ s).mp hs
+      rw [wsWindowAt_eq] at hne ⊢
+      refine ⟨h1, h3, h2, rfl, rfl, ?_⟩
+      intro h0
+      simp only at h0
+      simp [h0] at hne
+    · intro s h1 h2 h3 hc ⟨x, hx, hxs⟩
+      refine ⟨wsWindowAt t d cap es s, ?_, by rw [wsWindowAt_eq]⟩
+      rw [List.mem_filter]
+      refine ⟨List.mem_map_of_mem ((mem_wsGrid _ _ _ _ s).mpr ⟨h1, h2, h3⟩), ?_⟩
+      rw [wsWindowAt_eq]
+      simp only [decide_eq_true_eq, length_popOver]
+      have : 0 < (es.filter (inSpan s d)).length :=
+        List.length_pos_of_mem (List.mem_filter.mpr ⟨hx, hxs⟩)
+      omega
+
+/-- every event lies in the span of some window of the grid (duration ≥ 1 ms) -/
+theorem grid_point_of_event {d : Nat} {es : List Ev} {x : Ev} (hd : 1 ≤ d) (hx : x ∈ es) :
+    ∃ s, minTs es ≤ s ∧ s ≤ maxTs es ∧ (s - minTs es) % wsStep d = 0 ∧ inSpan s d x = true := by
+  have hlo := minTs_le hx
+  have hhi := le_maxTs hx
+  have hpos := wsStep_pos d
+  have hle := wsStep_le d hd
+  have h1 := al_le (wsStep d) (x.ts - minTs es)
+  have h2 := al_lt (wsStep d) (x.ts - minTs es) hpos
+  refine ⟨minTs es + (x.ts - minTs es) / wsStep d * wsStep d, by omega, by omega, ?_, ?_⟩
+  · rw [Nat.add_sub_cancel_left]; exact al_mod _ _
+  · simp only [inSpan, Bool.and_eq_true, decide_eq_true_eq]; omega
+
+theorem wss_ok (div : Int → Nat → Nat) (t : WType) (d cap : Nat) (es : List Ev) :
+    wssOk div d cap es ((wsSliding t d cap es).map (TW.wobs div)) = true := by
+  obtain ⟨h1, h2, h3⟩ := ws_sliding_spec t d cap es
+  have hstep : max (d / 2) 1 = wsStep d := rfl
+  simp only [wssOk, Bool.and_eq_true, hstep]
+  refine ⟨⟨⟨?_, ?_⟩, ?_⟩, ?_⟩
+  · apply strictInc_of_pairwise
+    simpa [List.map_map, Function.comp_def, TW.wobs] using h1
+  · rw [List.all_eq_true]
+    intro o ho
+    rw [List.mem_map] at ho
+    obtain ⟨w, hw, rfl⟩ := ho
+    obtain ⟨a1, a2, a3, a4, a5, a6⟩ := h2 w hw
+    simp only [TW.wobs, Bool.and_eq_true, beq_iff_eq, Bool.not_eq_true', List.isEmpty_eq_false_iff]
+    refine ⟨⟨⟨⟨⟨⟨decide_eq_true a1, a2⟩, decide_eq_true a3⟩, a4⟩, ?_⟩, a6⟩, aggregate_ok div _⟩
+    rw [a5]
+    exact keptByCap_popOver _ _
+  · by_cases hc : cap = 0
+    · simp [hc]
+    · simp only [Bool.or_eq_true, beq_iff_eq, hc, false_or, List.all_eq_true, List.mem_range, bne_iff_ne, ne_eq,
+        Bool.not_eq_true', List.any_eq_true]
+      intro k hk
+      have hmm := minTs_le_maxTs es
+      by_cases hk0 : k % wsStep d = 0
+      · by_cases hany : (es.any fun x => decide (minTs es + k ≤ x.ts) && decide (x.ts < minTs es + k + d)) = true
+        · right
+          rw [List.any_eq_true] at hany
+          obtain ⟨x, hx, hxs⟩ := hany
+          obtain ⟨w, hw, hws⟩ := h3 (minTs es + k) (by omega) (by omega)
+            (by rw [Nat.add_sub_cancel_left]; exact hk0) (by omega) ⟨x, hx, by simpa [inSpan] using hxs⟩
+          exact ⟨TW.wobs div w, List.mem_map_of_mem hw, by simp [TW.wobs, hws]⟩
+        · left; right
+          simpa using hany
+      · left; left; exact hk0
+  · by_cases hc : cap = 0
+    · simp [hc]
+    · by_cases hd : d = 0
+      · simp [hd]
+      · simp only [Bool.or_eq_true, beq_iff_eq, hc, hd, false_or, List.all_eq_true, List.any_eq_true]
+        intro x hx
+        obtain ⟨s, b1, b2, b3, b4⟩ := grid_point_of_event (d := d) (by omega) hx
+        obtain ⟨w, hw, hws⟩ := h3 s b1 b2 b3 (by omega) ⟨x, hx, b4⟩
+        refine ⟨TW.wobs div w, List.mem_map_of_mem hw, ?_⟩
+        have hst := (h2 w hw).2.2.2.1
+        simp only [TW.wobs, hst, hws]
+        simpa [inSpan] using b4
+
+/-- before fix-C12c: with a duration of at most 1 ms the loop's cursor never moves, so its guard
+`current_start <= max_time` holds after any number of iterations — the constructor does not return -/
+theorem wsCursorOld_stuck (d start n : Nat) (hd : d ≤ 1) : wsCursorOld d start n = start := by
+  induction n with
+  | zero => rfl
+  | succ n ih =>
+    have : d / 2 = 0 := by omega
+    simp [wsCursorOld, ih, this]
+
+/-! ### WindowManager, sliding / session mode (fixed windows, first fit) -/
+
+/-- a window of a sliding/session manager with duration `d` and per-window cap `cap` -/
+structure FWInv (t : WType) (d cap : Nat) (w : TW) : Prop where
+  wtype : w.wtype = t
+  dur : w.dur = d
+  cap : w.cap = cap
+  stop : w.stop = w.start + d
+  inside : ∀ x ∈ w.events, w.start ≤ x.ts ∧ x.ts < w.stop
+
+/-- the first window (list order = start order) whose span contains `ts` -/
+def holder (ws : List TW) (ts : Nat) : Option TW := ws.find? (fun w => w.contains ts)
+
+/-- the start of the window that receives an event with timestamp `ts` (model side of `recvStart`) -/
+def tgt (ws : List TW) (ts : Nat) : Nat :=
+  match holder ws ts with
+  | some h => h.start
+  | none => ts
+
+theorem firstHolder_wobs (div : Int → Nat → Nat) (ws : List TW) (ts : Nat) :
+    firstHolder (ws.map (TW.wobs div)) ts = (holder ws ts).map (TW.wobs div) := by
+  induction ws with
+  | nil => rfl
+  | cons w ws ih =>
+    unfold firstHolder holder at ih ⊢
+    simp only [List.map_cons, List.find?_cons]
+    have : (decide ((TW.wobs div w).start ≤ ts) && decide (ts < (TW.wobs div w).stop)) = w.contains ts := rfl
+    rw [this]
+    cases w.contains ts with
+    | true => rfl
+    | false => exact ih
+
+theorem recvStart_wobs (div : Int → Nat → Nat) (ws : List TW) (ts : Nat) :
+    recvStart (ws.map (TW.wobs div)) ts = tgt ws ts := by
+  unfold recvStart tgt
+  rw [firstHolder_wobs]
+  cases holder ws ts <;> rfl
+
+theorem tgt_cases (ws : List TW) (ts : Nat) :
+    (∃ h ∈ ws, h.start = tgt ws ts ∧ h.contains ts = true ∧ holder ws ts = some h)
+    ∨ ((∀ w ∈ ws, w.contains ts = false) ∧ tgt ws ts = ts ∧ holder ws ts = none) := by
+  unfold tgt
+  cases hh : holder ws ts with
+  | some h =>
+    left
+    unfold holder at hh
+    exact ⟨h, List.mem_of_find?_eq_some hh, rfl, by have := List.find?_some hh; simpa using this, rfl⟩
+  | none =>
+    right
+    unfold holder at hh
+    rw [List.find?_eq_none] at hh
+    exact ⟨fun w hw => by simpa using hh w hw, rfl, rfl⟩
+
+/-- a window that starts at `ts` contains `ts` (duration ≥ 1 ms) -/
+theorem contains_start {t : WType} {d cap : Nat} {w : TW} (hw : FWInv t d cap w) (hd : 1 ≤ d) :
+    w.contains w.start = true := by
+  simp only [TW.contains, hw.stop, Bool.and_eq_true, decide_eq_true_eq]; omega
+
+/-- the offering loop for fixed windows with pairwise distinct starts: the event goes to the first window whose
+span contains its timestamp — to that one only -/
+theorem offer_first {t : WType} {d cap : Nat} (hd : 1 ≤ d) (e : Ev) (ws : List TW)
+    (hw : ∀ w ∈ ws, FWInv t d cap w) (hn : ws.Pairwise (fun a b => a.start ≠ b.start)) :
+    offer ws e = (ws.map (bump cap (tgt ws e.ts) e), (holder ws e.ts).isSome) := by
+  induction ws with
+  | nil => rfl
+  | cons w ws ih =>
+    rw [List.pairwise_cons] at hn
+    have hw0 := hw w (by simp)
+    simp only [offer]
+    by_cases hc : w.contains e.ts = true
+    · have hh : holder (w :: ws) e.ts = some w := by simp [holder, hc]
+      have ht : tgt (w :: ws) e.ts = w.start := by simp [tgt, hh]
+      have habs : ∀ w' ∈ ws, w'.start ≠ w.start := fun w' hw' h' => hn.1 w' hw' h'.symm
+      simp only [hc, if_true, List.map_cons, hh, ht, Option.isSome_some]
+      rw [map_bump_of_absent _ _ _ _ habs]
+      simp [TW.addEvent, hc, bump, hw0.cap]
+    · have hcf : w.contains e.ts = false := by simpa using hc
+      have hh : holder (w :: ws) e.ts = holder ws e.ts := by simp [holder, hcf]
+      have ht : tgt (w :: ws) e.ts = tgt ws e.ts := by simp [tgt, hh]
+      have hne : ¬ w.start = tgt ws e.ts := by
+        intro h'
+        rcases tgt_cases ws e.ts with ⟨h, hm, h1, _, _⟩ | ⟨_, h1, _⟩
+        · exact hn.1 h hm (h'.trans h1.symm)
+        · rw [h1] at h'
+          have := contains_start hw0 hd
+          rw [h'] at this
+          exact hc this
+      have := ih (fun w' hw' => hw w' (List.mem_cons_of_mem _ hw')) hn.2
+      simp only [hc, if_false, Bool.false_eq_true, this, List.map_cons, hh, ht, bump, hne]
+
+theorem fwinv_bump {t : WType} {d cap s : Nat} {e : Ev} {w : TW} (hw : FWInv t d cap w)
+    (hs : w.start = s → w.contains e.ts = true) : FWInv t d cap (bump cap s e w) := by
+  unfold bump
+  split
+  · rename_i h
+    refine ⟨hw.wtype, hw.dur, hw.cap, hw.stop, ?_⟩
+    intro x hx
+    have hx' := mem_of_mem_popOver hx
+    rcases List.mem_append.mp hx' with hx' | hx'
+    · exact hw.inside x hx'
+    · simp only [List.mem_singleton] at hx'; subst hx'
+      have := hs h
+      simpa [TW.contains] using this
+  · exact hw
+
+theorem eq_of_start_eq {ws : List TW} (hn : ws.Pairwise (fun a b => a.start ≠ b.start)) {a b : TW}
+    (ha : a ∈ ws) (hb : b ∈ ws) (h : a.start = b.start) : a = b := by
+  induction ws with
+  | nil => cases ha
+  | cons w ws ih =>
+    rw [List.pairwise_cons] at hn
+    rcases List.mem_cons.mp ha with rfl | ha' <;> rcases List.mem_cons.mp hb with rfl | hb'
+    · rfl
+    · exact absurd h (hn.1 b hb')
+    · exact absurd h.symm (hn.1 a ha')
+    · exact ih hn.2 ha' hb'
+
+/-- the state a sliding / session manager maintains -/
+structure FInv (t : WType) (d : Nat) (m : WM) : Prop where
+  wtype : m.wtype = t
+  nt : t ≠ .tumbling
+  dur : m.dur = d
+  wins : ∀ w ∈ m.windows, FWInv t d m.cap w
+  sorted : (m.windows.map (·.start)).Pairwise (· < ·)
+  len : m.windows.length ≤ m.maxW
+
+/-- the window opened for an event no window's span contains -/
+def freshWin (t : WType) (d cap : Nat) (e : Ev) : TW :=
+  { wtype := t, dur := d, start := e.ts, stop := e.ts + d, cap := cap, events := popOver cap [e] }
+
+theorem fresh_window (t : WType) (d cap : Nat) (e : Ev) (hd : 1 ≤ d) :
+    ((TW.new t d e.ts cap).addEvent e).1 = freshWin t d cap e := by
+  have : e.ts < e.ts + d := by omega
+  simp [TW.addEvent, TW.contains, TW.new, freshWin, this]
+
+theorem windowStart_fixed {t : WType} (ht : t ≠ .tumbling) (d ts : Nat) : windowStart t d ts = some ts := by
+  cases t with
+  | tumbling => exact absurd rfl ht
+  | sliding => rfl
+  | session => rfl
+
+/-- placement: the windows after the offering loop / after opening a new window -/
+theorem fplace_spec {t : WType} {d : Nat} {m : WM} (hd : 1 ≤ d) (hm : FInv t d m) (e : Ev) :
+    ∃ ws, m.place e = some ws
+      ∧ (∀ w ∈ ws, FWInv t d m.cap w)
+      ∧ ws.Pairwise (fun a b => a.start ≠ b.start)
+      ∧ tgt m.windows e.ts ≤ e.ts ∧ e.ts < tgt m.windows e.ts + d
+      ∧ ((m.windows.any (fun w => decide (w.start = tgt m.windows e.ts)) = true
+            ∧ ws = m.windows.map (bump m.cap (tgt m.windows e.ts) e))
+         ∨ ((∀ w ∈ m.windows, w.start ≠ tgt m.windows e.ts)
+            ∧ tgt m.windows e.ts = e.ts
+            ∧ ws = m.windows ++ [freshWin t d m.cap e])) := by
+  have hdist := distinct_of_sorted hm.sorted
+  have hoff := offer_first hd e m.windows hm.wins hdist
+  unfold WM.place
+  rw [hoff]
+  rcases tgt_cases m.windows e.ts with ⟨h, hmem, h1, h2, h3⟩ | ⟨h1, h2, h3⟩
+  · have hsp : tgt m.windows e.ts ≤ e.ts ∧ e.ts < tgt m.windows e.ts + d := by
+      have := h2
+      simp only [TW.contains, Bool.and_eq_true, decide_eq_true_eq, (hm.wins h hmem).stop] at this
+      rw [← h1]; exact this
+    refine ⟨_, by simp only [h3, Option.isSome_some, if_true], ?_, ?_, hsp.1, hsp.2, Or.inl ⟨?_, rfl⟩⟩
+    · intro w hw
+      rw [List.mem_map] at hw
+      obtain ⟨w0, hw0, rfl⟩ := hw
+      apply fwinv_bump (hm.wins w0 hw0)
+      intro hs
+      -- distinct starts: the window that starts at the target is the holder
+      have : w0 = h := eq_of_start_eq hdist hw0 hmem (hs.trans h1.symm)
+      rw [this]; exact h2
+    · rw [List.pairwise_map]
+      exact hdist.imp (fun hab => by rw [bump_start, bump_start]; exact hab)
+    · rw [List.any_eq_true]; exact ⟨h, hmem, by simpa using h1⟩
+  · have habs : ∀ w ∈ m.windows, w.start ≠ tgt m.windows e.ts := by
+      intro w hw h'
+      rw [h2] at h'
+      have := contains_start (hm.wins w hw) hd
+      rw [h', h1 w hw] at this
+      cases this
+    refine ⟨_, by simp only [h3, Option.isSome_none, Bool.false_eq_true, if_false, hm.wtype, hm.dur,
+                     windowStart_fixed hm.nt, Option.map_some, fresh_window t d m.cap e hd],
+            ?_, ?_, by omega, by omega, Or.inr ⟨habs, h2, rfl⟩⟩
+    · intro w hw
+      rcases List.mem_append.mp hw with hw | hw
+      · exact hm.wins w hw
+      · simp only [List.mem_singleton] at hw
+        subst hw
+        refine ⟨rfl, rfl, rfl, rfl, ?_⟩
+        intro x hx
+        have := mem_of_mem_popOver hx
+        simp only [List.mem_singleton] at this
+        subst this
+        simp only [freshWin]; omega
+    · rw [List.pairwise_append]
+      refine ⟨hdist, by simp, ?_⟩
+      intro a ha b hb
+      simp only [List.mem_singleton] at hb
+      subst hb
+      show a.start ≠ e.ts
+      rw [← h2]; exact habs a ha
+
+theorem bump_stop (cap s : Nat) (e : Ev) (w : TW) : (bump cap s e w).stop = w.stop := by
+  unfold bump; split <;> rfl
+
+/-- `process_event` of a sliding / session manager (`d ≥ 1`), window by window -/
+theorem fprocess_full {t : WType} {d : Nat} {m : WM} (hd : 1 ≤ d) (hm : FInv t d m) (e : Ev) :
+    ∃ m', m.process e = some m' ∧ FInv t d m' ∧ m'.cap = m.cap ∧ m'.maxW = m.maxW
+      ∧ (∀ w ∈ m'.windows, e.ts < w.stop)
+      ∧ (∀ w ∈ m'.windows,
+          (w.start = tgt m.windows e.ts ∧ w.events = popOver m.cap (evAt m.windows (tgt m.windows e.ts) ++ [e]))
+          ∨ (w.start ≠ tgt m.windows e.ts ∧ w ∈ m.windows))
+      ∧ (1 ≤ m.maxW → ∃ w ∈ m'.windows, w.start = tgt m.windows e.ts)
+      ∧ (m'.windows.length = m.maxW
+          ∨ ∀ w0 ∈ m.windows, e.ts < w0.stop → ∃ w ∈ m'.windows, w.start = w0.start)
+      ∧ tgt m.windows e.ts ≤ e.ts ∧ e.ts < tgt m.windows e.ts + d := by
+  obtain ⟨ws, hplace, hwins, hdist, hlo, hhi, hcase⟩ := fplace_spec hd hm e
+  have hdist0 := distinct_of_sorted hm.sorted
+  refine ⟨{ m with windows := m.tidy e.ts ws }, by simp [WM.process, hplace], ?_, rfl, rfl, ?_, ?_, ?_, ?_, hlo, hhi⟩
+  · refine ⟨hm.wtype, hm.nt, hm.dur, ?_, ?_, ?_⟩
+    · intro w hw; exact hwins w (mem_tidy hw).1
+    · apply sortByStart_strict
+      exact hdist.sublist ((popOver_sublist _ _).trans List.filter_sublist)
+    · show (m.tidy e.ts ws).length ≤ m.maxW
+      unfold WM.tidy
+      rw [(sortByStart_perm _).length_eq, length_popOver]; omega
+  · intro w hw; exact (mem_tidy hw).2
+  · intro w hw
+    have hw' := (mem_tidy hw).1
+    rcases hcase with ⟨_, hws⟩ | ⟨habs, _, hws⟩
+    · rw [hws, List.mem_map] at hw'
+      obtain ⟨w1, hw1, rfl⟩ := hw'
+      by_cases h1 : w1.start = tgt m.windows e.ts
+      · left
+        refine ⟨by rw [bump_start, h1], ?_⟩
+        rw [← h1, evAt_of_mem hdist0 hw1]
+        simp [bump, h1]
+      · right
+        have : bump m.cap (tgt m.windows e.ts) e w1 = w1 := by simp [bump, h1]
+        rw [this]; exact ⟨h1, hw1⟩
+    · rw [hws] at hw'
+      rcases List.mem_append.mp hw' with hw' | hw'
+      · right; exact ⟨habs w hw', hw'⟩
+      · left
+        simp only [List.mem_singleton] at hw'
+        subst hw'
+        rename_i h2
+        exact ⟨h2.symm, by rw [evAt_of_absent habs]; rfl⟩
+  · intro hmax
+    show ∃ w ∈ m.tidy e.ts ws, _
+    rcases hcase with ⟨hany, hws⟩ | ⟨habs, h2, hws⟩
+    · rw [List.any_eq_true] at hany
+      obtain ⟨w0, hw0, hs0⟩ := hany
+      have hs0 : w0.start = tgt m.windows e.ts := by simpa using hs0
+      refine ⟨bump m.cap (tgt m.windows e.ts) e w0, ?_, by rw [bump_start, hs0]⟩
+      unfold WM.tidy
+      rw [mem_sortByStart, popOver_of_le]
+      · rw [List.mem_filter]
+        refine ⟨by rw [hws]; exact List.mem_map_of_mem hw0, ?_⟩
+        rw [bump_stop, (hm.wins w0 hw0).stop, hs0]; simpa using hhi
+      · have h1 : (ws.filter fun w => decide (e.ts < w.stop)).length ≤ ws.length := List.length_filter_le _ _
+        have h2 : ws.length = m.windows.length := by rw [hws, List.length_map]
+        have := hm.len
+        omega
+    · refine ⟨freshWin t d m.cap e, ?_, h2.symm⟩
+      unfold WM.tidy
+      rw [mem_sortByStart, hws, List.filter_append]
+      have : e.ts < (freshWin t d m.cap e).stop := by simp only [freshWin]; omega
+      simp only [List.filter_cons, this, decide_true, if_true, List.filter_nil]
+      exact mem_popOver_last _ _ hmax
+  · show (m.tidy e.ts ws).length = m.maxW ∨ _
+    by_cases hl : (ws.filter fun w => decide (e.ts < w.stop)).length ≤ m.maxW
+    · right
+      intro w0 hw0 hlive
+      have hex : ∃ w ∈ ws, w.start = w0.start ∧ w.stop = w0.stop := by
+        rcases hcase with ⟨_, hws⟩ | ⟨_, _, hws⟩
+        · exact ⟨bump m.cap (tgt m.windows e.ts) e w0, by rw [hws]; exact List.mem_map_of_mem hw0,
+                 bump_start _ _ _ _, bump_stop _ _ _ _⟩
+        · exact ⟨w0, by rw [hws]; exact List.mem_append_left _ hw0, rfl, rfl⟩
+      obtain ⟨w, hw, h1, h2⟩ := hex
+      refine ⟨w, ?_, h1⟩
+      unfold WM.tidy
+      rw [mem_sortByStart, popOver_of_le hl, List.mem_filter]
+      exact ⟨hw, by rw [h2]; simpa using hlive⟩
+    · left
+      unfold WM.tidy
+      rw [(sortByStart_perm _).length_eq, length_popOver]; omega
+
+theorem wmf_step_ok (div : Int → Nat → Nat) {t : WType} {d : Nat} {m m' : WM} (hd : 1 ≤ d) (hm : FInv t d m) (e : Ev)
+    (hfresh : ∀ w ∈ m.windows, e ∉ w.events) (hp : m.process e = some m') :
+    wmfStepOk div d m.cap m.maxW (m.windows.map (TW.wobs div)) e (m'.windows.map (TW.wobs div)) = true := by
+  obtain ⟨m2, hp2, hm', hc, hx, hexp, hcls, hex, hsurv, hlo, hhi⟩ := fprocess_full hd hm e
+  rw [hp] at hp2
+  cases hp2
+  have hdist := distinct_of_sorted hm.sorted
+  have hdist' := distinct_of_sorted hm'.sorted
+  simp only [wmfStepOk, Bool.and_eq_true, recvStart_wobs]
+  refine ⟨⟨⟨⟨⟨⟨?_, ?_⟩, ?_⟩, ?_⟩, ?_⟩, ?_⟩, ?_⟩
+  · apply strictInc_of_pairwise
+    simpa [List.map_map, Function.comp_def, TW.wobs] using hm'.sorted
+  · simp only [List.length_map, decide_eq_true_eq]; rw [← hx]; exact hm'.len
+  · rw [List.all_eq_true]
+    intro o ho
+    rw [List.mem_map] at ho
+    obtain ⟨w, hw, rfl⟩ := ho
+    have hwi := hm'.wins w hw
+    simp only [Bool.and_eq_true]
+    refine ⟨⟨⟨⟨?_, ?_⟩, ?_⟩, ?_⟩, aggregate_ok div _⟩
+    · simp only [TW.wobs, beq_iff_eq]; exact hwi.stop
+    · simp only [TW.wobs, List.all_eq_true, Bool.and_eq_true]
+      intro x hx'; exact ⟨decide_eq_true (hwi.inside x hx').1, decide_eq_true (hwi.inside x hx').2⟩
+    · exact decide_eq_true (hexp w hw)
+    · rw [eventsAt_wobs]
+      rcases hcls w hw with ⟨h1, h2⟩ | ⟨h1, h2⟩
+      · have hcond : (w.start == tgt m.windows e.ts) = true := by simpa using h1
+        simp only [TW.wobs, hcond, ↓reduceIte]
+        rw [h1, h2]; exact keptByCap_popOver _ _
+      · have hcond : (w.start == tgt m.windows e.ts) = false := by simpa using h1
+        simp only [TW.wobs, hcond, Bool.false_eq_true, ↓reduceIte]
+        rw [evAt_of_mem hdist h2]
+        simp only [Bool.and_eq_true, beq_self_eq_true, true_and, List.any_eq_true]
+        exact ⟨TW.wobs div w, List.mem_map_of_mem h2, by simp [TW.wobs]⟩
+  · by_cases h0 : m.maxW = 0
+    · simp [h0]
+    · simp only [Bool.or_eq_true, List.any_eq_true]
+      right
+      obtain ⟨w, hw, hs⟩ := hex (by omega)
+      exact ⟨TW.wobs div w, List.mem_map_of_mem hw, by simpa [TW.wobs] using hs⟩
+  · rw [List.all_eq_true]
+    intro o ho
+    rw [List.mem_map] at ho
+    obtain ⟨w, hw, rfl⟩ := ho
+    by_cases h1 : w.start = tgt m.windows e.ts
+    · have hst := (hm'.wins w hw).stop
+      simp only [TW.wobs, Bool.or_eq_true, Bool.and_eq_true, bne_iff_ne, ne_eq]
+      right
+      exact ⟨decide_eq_true (by rw [h1]; exact hlo), decide_eq_true (by rw [hst, h1]; exact hhi)⟩
+    · simp only [TW.wobs, Bool.or_eq_true, bne_iff_ne, ne_eq]
+      left; exact h1
+  · rw [beq_iff_eq, occurrences_wobs]
+    have hold : e ∉ evAt m.windows (tgt m.windows e.ts) := by
+      intro h
+      obtain ⟨w, hw, hxw⟩ := evAt_subset h
+      exact hfresh w hw hxw
+    rw [sum_map_single (tgt m.windows e.ts) ((popOver m.cap (evAt m.windows (tgt m.windows e.ts) ++ [e])).count e)
+          (fun w => w.events.count e) m'.windows hdist'
+          (by
+            intro w hw hne
+            rcases hcls w hw with ⟨h1, _⟩ | ⟨_, h2⟩
+            · exact absurd h1 hne
+            · exact List.count_eq_zero_of_not_mem (hfresh w h2))
+          (by
+            intro w hw heq
+            rcases hcls w hw with ⟨_, h2⟩ | ⟨h1, _⟩
+            · rw [h2]
+            · exact absurd heq h1),
+        count_popOver_last _ _ _ hold]
+    by_cases h0 : 1 ≤ m.maxW
+    · obtain ⟨w, hw, hs⟩ := hex h0
+      have hany : m'.windows.any (fun w => decide (w.start = tgt m.windows e.ts)) = true := by
+        rw [List.any_eq_true]; exact ⟨w, hw, by simpa using hs⟩
+      simp [hany, h0, hd]
+    · have hlen := hm'.len
+      have : m'.windows = [] := by
+        cases hmw : m'.windows with
+        | nil => rfl
+        | cons a l => rw [hmw] at hlen; simp at hlen; omega
+      simp [this, h0]
+  · rcases hsurv with h | h
+    · simp only [Bool.or_eq_true, beq_iff_eq, List.length_map]
+      left; exact h
+    · simp only [Bool.or_eq_true, List.all_eq_true]
+      right
+      intro o ho
+      rw [List.mem_map] at ho
+      obtain ⟨w0, hw0, rfl⟩ := ho
+      by_cases hl : e.ts < w0.stop
+      · obtain ⟨w, hw, hs⟩ := h w0 hw0 hl
+        right
+        rw [List.any_eq_true]
+        exact ⟨TW.wobs div w, List.mem_map_of_mem hw, by simpa [TW.wobs] using hs⟩
+      · left; simp [TW.wobs, hl]
+
+theorem fseen_step {t : WType} {d : Nat} {m m' : WM} {seen : List Ev} (hd : 1 ≤ d) (hm : FInv t d m) (e : Ev)
+    (hs : Seen seen m) (hp : m.process e = some m') : Seen (e :: seen) m' := by
+  obtain ⟨m2, hp2, _, _, _, _, hcls, _⟩ := fprocess_full hd hm e
+  rw [hp] at hp2
+  cases hp2
+  intro w hw x hx
+  rcases hcls w hw with ⟨_, h2⟩ | ⟨_, h2⟩
+  · rw [h2] at hx
+    rcases List.mem_append.mp (mem_of_mem_popOver hx) with hx | hx
+    · obtain ⟨w0, hw0, hxw⟩ := evAt_subset hx
+      exact List.mem_cons_of_mem _ (hs w0 hw0 x hxw)
+    · simp only [List.mem_singleton] at hx; subst hx; simp
+  · exact List.mem_cons_of_mem _ (hs w h2 x hx)
+
+theorem wmf_trace_ok (div : Int → Nat → Nat) {t : WType} {d : Nat} (hd : 1 ≤ d) (es : List Ev) (m : WM) (seen : List Ev)
+    (tr : List (List WObs)) (hm : FInv t d m) (hs : Seen seen m) (hnd : es.Nodup) (hdisj : ∀ x ∈ es, x ∉ seen)
+    (h : wmTrace div m es = some tr) :
+    wmfRunOk div d m.cap m.maxW (m.windows.map (TW.wobs div)) es tr = true := by
+  induction es generalizing m seen tr with
+  | nil => simp [wmTrace] at h; subst h; simp [wmfRunOk]
+  | cons e es ih =>
+    simp only [wmTrace] at h
+    cases hp : m.process e with
+    | none => simp [hp] at h
+    | some m' =>
+      simp only [hp] at h
+      cases ht : wmTrace div m' es with
+      | none => simp [ht] at h
+      | some rest =>
+        simp only [ht, Option.map_some, Option.some.injEq] at h
+        subst h
+        obtain ⟨m2, hp2, hm', hc, hx, _⟩ := fprocess_full hd hm e
+        rw [hp] at hp2
+        cases hp2
+        rw [List.nodup_cons] at hnd
+        have hfresh : ∀ w ∈ m.windows, e ∉ w.events :=
+          fun w hw hew => hdisj e (by simp) (hs w hw e hew)
+        simp only [wmfRunOk, Bool.and_eq_true]
+        refine ⟨wmf_step_ok div hd hm e hfresh hp, ?_⟩
+        have := ih m' (e :: seen) rest hm' (fseen_step hd hm e hs hp) hnd.2
+          (by
+            intro x hx hmem
+            rcases List.mem_cons.mp hmem with rfl | hmem
+            · exact hnd.1 hx
+            · exact hdisj x (List.mem_cons_of_mem _ hx) hmem)
+          ht
+        rw [hc, hx] at this
+        exact this
+
+theorem wmf_trace_defined (div : Int → Nat → Nat) {t : WType} {d : Nat} (hd : 1 ≤ d) (es : List Ev) (m : WM)
+    (hm : FInv t d m) : ∃ tr, wmTrace div m es = some tr := by
+  induction es generalizing m with
+  | nil => exact ⟨[], rfl⟩
+  | cons e es ih =>
+    obtain ⟨m', hp, hm', _⟩ := fprocess_full hd hm e
+    obtain ⟨rest, hr⟩ := ih m' hm'
+    exact ⟨m'.windows.map (TW.wobs div) :: rest, by simp [wmTrace, hp, hr]⟩
+
+/-! ### First, Last, CountDistinct, CountBy, Percentile -/
+
+theorem dedup_length (l : List FVal) : (dedup l).length = distinctCount l := by
+  induction l with
+  | nil => rfl
+  | cons x xs ih =>
+    by_cases h : x ∈ xs
+    · simp [dedup, distinctCount, h, ih]
+    · simp [dedup, distinctCount, h, ih]; omega
+
+theorem mem_dedup (l : List FVal) (v : FVal) : v ∈ dedup l ↔ v ∈ l := by
+  induction l with
+  | nil => simp [dedup]
+  | cons x xs ih =>
+    by_cases h : x ∈ xs
+    · simp only [dedup, h, if_true, ih, List.mem_cons]
+      constructor
+      · exact Or.inr
+      · rintro (rfl | h')
+        · exact h
+        · exact h'
+    · simp only [dedup, h, if_false, List.mem_cons, ih]
+
+theorem nodup_dedup (l : List FVal) : (dedup l).Nodup := by
+  induction l with
+  | nil => simp [dedup]
+  | cons x xs ih =>
+    by_cases h : x ∈ xs
+    · simp only [dedup, h, if_true]; exact ih
+    · simp only [dedup, h, if_false, List.nodup_cons]
+      exact ⟨fun h' => h ((mem_dedup xs x).mp h'), ih⟩
+
+def ckeys (m : List (Int × Nat)) : List Int := m.map (·.1)
+
+theorem ckeys_bump (k : Int) (m : List (Int × Nat)) :
+    ckeys (bumpCount k m) = if k ∈ ckeys m then ckeys m else ckeys m ++ [k] := by
+  induction m with
+  | nil => simp [bumpCount, ckeys]
+  | cons p rest ih =>
+    simp only [bumpCount]
+    by_cases h : p.1 = k
+    · simp [h, ckeys]
+    · have h' : ¬ k = p.1 := fun h'' => h h''.symm
+      simp only [h, if_false]
+      simp only [ckeys, List.map_cons, List.mem_cons, h', false_or] at ih ⊢
+      rw [ih]; by_cases hk : k ∈ List.map (fun x => x.fst) rest <;> simp [hk]
+
+theorem bump_other {k : Int} {m : List (Int × Nat)} {p : Int × Nat} (hp : p.1 ≠ k) :
+    p ∈ bumpCount k m ↔ p ∈ m := by
+  induction m with
+  | nil => simp only [bumpCount, List.mem_singleton, List.not_mem_nil, iff_false]; intro h; exact hp (h ▸ rfl)
+  | cons q rest ih =>
+    simp only [bumpCount]
+    by_cases h : q.1 = k
+    · simp only [h, if_true, List.mem_cons]
+      constructor
+      · rintro (h1 | h1)
+        · exact absurd (h1 ▸ rfl : p.1 = k) hp
+        · exact Or.inr h1
+      · rintro (h1 | h1)
+        · exact absurd (h1 ▸ h : p.1 = k) hp
+        · exact Or.inr h1
+    · simp only [h, if_false, List.mem_cons, ih]
+
+theorem bump_same {k : Int} {m : List (Int × Nat)} {p : Int × Nat}
+    (hn : (ckeys m).Nodup) (hp : p.1 = k) (hm : p ∈ bumpCount k m) :
+    (∃ q ∈ m, q.1 = k ∧ p.2 = q.2 + 1) ∨ (k ∉ ckeys m ∧ p.2 = 1) := by
+  induction m with
+  | nil =>
+    simp only [bumpCount, List.mem_singleton] at hm
+    right; subst hm; simp [ckeys]
+  | cons q rest ih =>
+    simp only [ckeys, List.map_cons, List.nodup_cons] at hn
+    simp only [bumpCount] at hm
+    by_cases h : q.1 = k
+    · simp only [h, if_true, List.mem_cons] at hm
+      rcases hm with hm | hm
+      · left; exact ⟨q, by simp, h, by rw [hm]⟩
+      · exfalso; apply hn.1; rw [h, ← hp]; exact List.mem_map_of_mem hm
+    · simp only [h, if_false, List.mem_cons] at hm
+      rcases hm with hm | hm
+      · exact absurd (hm ▸ hp) h
+      · rcases ih hn.2 hm with ⟨q', hq', h1, h2⟩ | ⟨h1, h2⟩
+        · left; exact ⟨q', List.mem_cons_of_mem _ hq', h1, h2⟩
+        · right; refine ⟨?_, h2⟩
+          simp only [ckeys, List.map_cons, List.mem_cons, not_or]
+          exact ⟨fun hk => h hk.symm, h1⟩
+
+/-- what the counting loop maintains: one entry per key seen, carrying the number of its occurrences -/
+structure CInv (seen : List Int) (m : List (Int × Nat)) : Prop where
+  nodup : (ckeys m).Nodup
+  count : ∀ p ∈ m, p.2 = seen.count p.1 ∧ 1 ≤ p.2
+  cover : ∀ k ∈ seen, k ∈ ckeys m
+
+theorem cinv_step {seen : List Int} {m : List (Int × Nat)} (h : CInv seen m) (k : Int) :
+    CInv (seen ++ [k]) (bumpCount k m) := by
+  obtain ⟨hn, hc, hv⟩ := h
+  have hkeys := ckeys_bump k m
+  constructor
+  · rw [hkeys]; split
+    · exact hn
+    · rename_i hk
+      rw [List.nodup_append]
+      exact ⟨hn, by simp, by intro a ha b hb; simp at hb; subst hb; intro hab; exact hk (hab ▸ ha)⟩
+  · intro p hp
+    by_cases hpk : p.1 = k
+    · rcases bump_same hn hpk hp with ⟨q, hq, h1, h2⟩ | ⟨h1, h2⟩
+      · have := hc q hq
+        rw [h2, this.1, List.count_append, hpk, h1]; simp
+      · have h0 : seen.count k = 0 := List.count_eq_zero_of_not_mem (fun hk => h1 (hv k hk))
+        rw [h2, List.count_append, hpk, h0]; simp
+    · have hp' := (bump_other hpk).mp hp
+      have := hc p hp'
+      refine ⟨?_, this.2⟩
+      rw [this.1, List.count_append]
+      have : List.count p.1 [k] = 0 := by
+        rw [List.count_eq_zero]; simp; exact fun h => hpk h
+      omega
+  · intro x hx
+    rw [hkeys]
+    rcases List.mem_append.mp hx with hx | hx
+    · split
+      · exact hv x hx
+      · exact List.mem_append_left _ (hv x hx)
+    · simp only [List.mem_singleton] at hx; subst hx
+      split
+      · assumption
+      · simp
+
+theorem cinv_fold (ks seen : List Int) (m : List (Int × Nat)) (h : CInv seen m) :
+    CInv (seen ++ ks) (ks.foldl (fun m k => bumpCount k m) m) := by
+  induction ks generalizing seen m with
+  | nil => simpa using h
+  | cons k ks ih =>
+    have := ih (seen ++ [k]) _ (cinv_step h k)
+    simpa [List.append_assoc] using this
+
+theorem strictIncInt_of_pairwise : ∀ (l : List Int), l.Pairwise (· < ·) → strictIncInt l = true
+  | [], _ => rfl
+  | [_], _ => rfl
+  | a :: b :: rest, h => by
+    rw [List.pairwise_cons] at h
+    simp only [strictIncInt, Bool.and_eq_true, decide_eq_true_eq]
+    exact ⟨h.1 b (by simp), strictIncInt_of_pairwise (b :: rest) h.2⟩
+
+theorem sortByKey_perm (l : List (Int × Nat)) : (sortByKey l).Perm l := List.mergeSort_perm _ _
+
+theorem sortByKey_strict (l : List (Int × Nat)) (hn : (ckeys l).Nodup) :
+    ((sortByKey l).map (·.1)).Pairwise (· < ·) := by
+  have hs : (sortByKey l).Pairwise (fun a b => decide (a.1 ≤ b.1) = true) :=
+    List.pairwise_mergeSort (le := fun a b : Int × Nat => decide (a.1 ≤ b.1))
+      (by intro a b c h1 h2; simp only [decide_eq_true_eq] at *; omega)
+      (by intro a b; simp only [Bool.or_eq_true, decide_eq_true_eq]; omega) l
+  have hn0 : l.Pairwise (fun a b => a.1 ≠ b.1) := by
+    simpa [ckeys, List.Nodup, List.pairwise_map] using hn
+  have hn' : (sortByKey l).Pairwise (fun a b => a.1 ≠ b.1) :=
+    ((sortByKey_perm l).pairwise_iff (fun h => Ne.symm h)).mpr hn0
+  rw [List.pairwise_map]
+  refine (hs.and hn').imp ?_
+  intro a b ⟨h1, h2⟩
+  simp only [decide_eq_true_eq] at h1
+  omega
+
+theorem countBy_ok (ks : List Int) : countByOk ks (sortByKey (ks.foldl (fun m k => bumpCount k m) [])) = true := by
+  have h := cinv_fold ks [] [] ⟨by simp [ckeys], by simp, by simp⟩
+  simp only [List.nil_append] at h
+  generalize ks.foldl (fun m k => bumpCount k m) [] = m at h
+  simp only [countByOk, Bool.and_eq_true]
+  refine ⟨⟨?_, ?_⟩, ?_⟩
+  · exact strictIncInt_of_pairwise _ (sortByKey_strict m h.nodup)
+  · rw [List.all_eq_true]
+    intro p hp
+    have := h.count p ((sortByKey_perm m).mem_iff.mp hp)
+    simp [this.1.symm, this.2]
+  · rw [List.all_eq_true]
+    intro k hk
+    have := h.cover k hk
+    simp only [ckeys, List.mem_map] at this
+    obtain ⟨p, hp, hpk⟩ := this
+    rw [List.any_eq_true]
+    exact ⟨p, (sortByKey_perm m).mem_iff.mpr hp, by simp [hpk]⟩
+
+/-! order statistics of a sorted list -/
+
+theorem sortInts_perm (l : List Int) : (sortInts l).Perm l := List.mergeSort_perm _ _
+
+theorem sortInts_sorted (l : List Int) : (sortInts l).Pairwise (· ≤ ·) := by
+  have hs : (sortInts l).Pairwise (fun a b => decide (a ≤ b) = true) :=
+    List.pairwise_mergeSort (le := fun a b : Int => decide (a ≤ b))
+      (by intro a b c h1 h2; simp only [decide_eq_true_eq] at *; omega)
+      (by intro a b; simp only [Bool.or_eq_true, decide_eq_true_eq]; omega) l
+  exact hs.imp (fun h => by simpa using h)
+
+theorem countP_eq_zero_of {p : Int → Bool} {l : List Int} (h : ∀ x ∈ l, p x = false) : l.countP p = 0 := by
+  rw [List.countP_eq_zero]; intro x hx; simp [h x hx]
+
+theorem countP_eq_length_of {p : Int → Bool} {l : List Int} (h : ∀ x ∈ l, p x = true) : l.countP p = l.length := by
+  rw [List.countP_eq_length]; exact h
+
+/-- in a sorted list the element at position `i` has at most `i` elements strictly below it and more than `i`
+elements at or below it -/
+theorem sorted_rank {s : List Int} (hs : s.Pairwise (· ≤ ·)) {i : Nat} {r : Int} (hi : s[i]? = some r) :
+    s.countP (fun x => decide (x < r)) ≤ i ∧ i < s.countP (fun x => decide (x ≤ r)) := by
+  obtain ⟨hlt, hget⟩ := List.getElem?_eq_some_iff.mp hi
+  have hsplit : s = s.take i ++ r :: s.drop (i + 1) := by
+    rw [← hget]; simp
+  have hlen : (s.take i).length = i := by rw [List.length_take]; omega
+  rw [hsplit] at hs
+  rw [List.pairwise_append] at hs
+  obtain ⟨_, hb, hab⟩ := hs
+  rw [List.pairwise_cons] at hb
+  have ha_le : ∀ x ∈ s.take i, x ≤ r := fun x hx => hab x hx r (by simp)
+  have hb_ge : ∀ y ∈ s.drop (i + 1), r ≤ y := hb.1
+  constructor
+  · rw [hsplit, List.countP_append, List.countP_cons]
+    have h1 : (s.take i).countP (fun x => decide (x < r)) ≤ i := by
+      have := List.countP_le_length (p := fun x => decide (x < r)) (l := s.take i)
+      omega
+    have h2 : (s.drop (i + 1)).countP (fun x => decide (x < r)) = 0 :=
+      countP_eq_zero_of (fun y hy => by have := hb_ge y hy; simp; omega)
+    simp only [h2, Int.lt_irrefl, decide_false, Bool.false_eq_true, if_false]
+    omega
+  · rw [hsplit, List.countP_append, List.countP_cons]
+    have h1 : (s.take i).countP (fun x => decide (x ≤ r)) = i := by
+      rw [countP_eq_length_of (fun x hx => by simpa using ha_le x hx), hlen]
+    simp only [h1, Int.le_refl, decide_true, if_true]
+    omega
+
+theorem pctIndex_lt (p n : Nat) (hp : p ≤ 100) (hn : 1 ≤ n) : pctIndex p n < n := by
+  unfold pctIndex
+  have : p * (n - 1) ≤ 100 * (n - 1) := Nat.mul_le_mul_right _ hp
+  omega
+
+theorem percentile_ok (p : Nat) (hp : p ≤ 100) (es : List AEv) : pctOk (avals es) p (aggPercentile p es) = true := by
+  unfold aggPercentile
+  by_cases he : (avals es).isEmpty = true
+  · simp [he, pctOk]
+  · simp only [he, Bool.false_eq_true, if_false]
+    have hne : (avals es) ≠ [] := by simpa using he
+    have hlen : 1 ≤ (avals es).length := List.length_pos_iff.mpr hne
+    have hidx := pctIndex_lt p (avals es).length hp hlen
+    have hl : (sortInts (avals es)).length = (avals es).length := (sortInts_perm _).length_eq
+    have hsome : (sortInts (avals es))[pctIndex p (avals es).length]?
+        = some ((sortInts (avals es))[pctIndex p (avals es).length]'(by omega)) :=
+      List.getElem?_eq_getElem (by omega)
+    rw [hsome]
+    obtain ⟨h1, h2⟩ := sorted_rank (sortInts_sorted (avals es)) hsome
+    rw [(sortInts_perm (avals es)).countP_eq] at h1 h2
+    simp only [pctOk, he, Bool.not_false, Bool.true_and, rankOk, Bool.and_eq_true, List.contains_eq_mem,
+      decide_eq_true_eq]
+    refine ⟨⟨?_, h1⟩, h2⟩
+    exact (sortInts_perm (avals es)).mem_iff.mp (List.getElem_mem _)
+
+theorem aggregate2_ok (es : List AEv) : agg2Ok es (aggregate2 es) = true := by
+  simp only [agg2Ok, aggregate2, Bool.and_eq_true, beq_iff_eq, aggFirst, aggLast, aggCountDistinct, dedup_length,
+    aggCountBy, countBy_ok, aggStdDevDefined, List.length_map, List.length_cons, List.length_nil, true_and, and_true]
+  simp only [List.map_cons, List.map_nil, List.zip_cons_cons, List.zip_nil_right, List.all_cons, List.all_nil,
+    Bool.and_true, Bool.and_eq_true]
+  exact ⟨percentile_ok 0 (by omega) es, percentile_ok 25 (by omega) es, percentile_ok 50 (by omega) es,
+         percentile_ok 75 (by omega) es, percentile_ok 100 (by omega) es⟩
+
 end C12
